@@ -75,6 +75,62 @@ fn flatten_statements(mut items: Vec<StatementsOrEmpty>) -> Vec<StmtKind> {
     stmts
 }
 
+/// Reads the interval of a duration literal such as `1h30m`, `1d_2h` or `2.5s`.
+///
+/// The lexer does not split the units from the numbers that follow them (`h30m`
+/// is one identifier), so the interval is read from the text of its tokens.
+/// The parts are in decreasing order of their unit and only the last part may
+/// have a fraction.
+fn parse_interval(text: &str) -> Result<DurationLiteral, &'static str> {
+    const UNITS: [&str; 5] = ["d", "h", "m", "s", "ms"];
+
+    let mut total: Option<DurationLiteral> = None;
+    let mut next_unit = 0;
+    let mut rest = text;
+    while !rest.is_empty() {
+        if total.is_some() {
+            rest = rest.strip_prefix('_').unwrap_or(rest);
+        }
+
+        let number_len = rest
+            .find(|c: char| !(c.is_ascii_digit() || c == '_' || c == '.'))
+            .unwrap_or(rest.len());
+        let (number, tail) = rest.split_at(number_len);
+        let unit_len = tail
+            .find(|c: char| !c.is_ascii_alphabetic())
+            .unwrap_or(tail.len());
+        let (unit, tail) = tail.split_at(unit_len);
+        rest = tail;
+
+        if !number.starts_with(|c: char| c.is_ascii_digit()) {
+            return Err("duration value");
+        }
+        if !rest.is_empty() && number.contains('.') {
+            return Err("duration fraction is only allowed in the last part");
+        }
+        let unit = UNITS
+            .iter()
+            .position(|u| u.eq_ignore_ascii_case(unit))
+            .filter(|u| *u >= next_unit)
+            .ok_or("duration unit")?;
+        next_unit = unit + 1;
+
+        let value = FixedPoint::parse(number)?;
+        let part = match unit {
+            0 => DurationLiteral::try_days(value),
+            1 => DurationLiteral::try_hours(value),
+            2 => DurationLiteral::try_minutes(value),
+            3 => DurationLiteral::try_seconds(value),
+            _ => DurationLiteral::try_milliseconds(value),
+        }?;
+        total = Some(match total {
+            Some(total) => total.try_plus(part)?,
+            None => part,
+        });
+    }
+    total.ok_or("duration")
+}
+
 enum Element {
     StructSelector(Id),
     ArraySelector(Vec<ExprKind>),
@@ -291,13 +347,17 @@ parser! {
         interval,
       }
     }
-    // milliseconds must come first because the "m" in "ms" would match the minutes rule
-    rule interval() -> DurationLiteral = ms:milliseconds() { ms }
-      / d:days() { d }
-      / h:hours() { h }
-      / m:minutes() { m }
-      / s:seconds() { s }
-    rule days() -> DurationLiteral = days:fixed_point() dt_sep("d") {? DurationLiteral::try_days(days) } / days:integer() dt_sep("d") dt_sep("_")? hours:hours() {? hours.try_plus(DurationLiteral::try_days(days.try_into()?)?) }
+    // The units are not tokens of their own: `1h30m` is the number 1 and the identifier `h30m`,
+    // and a fraction after the first part (`1h30.5m`) continues with a period, digits and an identifier
+    rule interval() -> DurationLiteral = first:(tok(TokenType::FixedPoint) / tok(TokenType::Digits)) units:tok(TokenType::Identifier) more:(tok(TokenType::Period) fraction:tok(TokenType::Digits) units:tok(TokenType::Identifier) { (fraction, units) })* {?
+      let mut text = format!("{}{}", first.text, units.text);
+      for (fraction, units) in more {
+        text.push('.');
+        text.push_str(fraction.text.as_str());
+        text.push_str(units.text.as_str());
+      }
+      parse_interval(text.as_str())
+    }
     rule fixed_point() -> FixedPoint =
       fp:tok(TokenType::FixedPoint) {?
         FixedPoint::parse(fp.text.as_str())
@@ -305,10 +365,6 @@ parser! {
       / i:integer() {?
         i.try_into()
     }
-    rule hours() -> DurationLiteral = hours:fixed_point() dt_sep("h") {? DurationLiteral::try_hours(hours) } / hours:integer() dt_sep("h") dt_sep("_")? min:minutes() {? min.try_plus(DurationLiteral::try_hours(hours.try_into()?)?) }
-    rule minutes() -> DurationLiteral = min:fixed_point() dt_sep("m") {? DurationLiteral::try_minutes(min) } / mins:integer() dt_sep("m") dt_sep("_")? sec:seconds() {? sec.try_plus(DurationLiteral::try_minutes(mins.try_into()?)?) }
-    rule seconds() -> DurationLiteral = secs:fixed_point() dt_sep("s") {? DurationLiteral::try_seconds(secs) } / sec:integer() dt_sep("s") dt_sep("_")? ms:milliseconds() {? ms.try_plus(DurationLiteral::try_seconds(sec.try_into()?)?) }
-    rule milliseconds() -> DurationLiteral = ms:fixed_point() dt_sep("ms") {? DurationLiteral::try_milliseconds(ms) }
 
     // 1.2.3.2 Time of day and date
     rule time_of_day() -> TimeOfDayLiteral = tok(TokenType::TimeOfDay) tok(TokenType::Hash) d:daytime() { TimeOfDayLiteral::new(d) }
